@@ -151,6 +151,7 @@ type c02Case struct {
 	Images  []dbImgObs `json:"images"`
 	NEvents int        `json:"n_events"`
 	Fatal   string     `json:"fatal,omitempty"`
+	Skipped string     `json:"skipped,omitempty"` // the tracing infrastructure failed for this case
 }
 
 // imageFeatures: what kind of recovery work an image asks for (used to pick images for nested kills)
@@ -211,14 +212,19 @@ func (c *c02Case) Exec() {
 			c.Fatal = fmt.Sprint("panic: ", r)
 		}
 	}()
-	c.Fatal, c.Images = "", nil
+	c.Fatal, c.Images, c.Skipped = "", nil, ""
 	dir := tmpDir("c02-")
 	defer os.RemoveAll(dir)
 	root := filepath.Join(dir, "db")
 	must(os.MkdirAll(root, 0755))
 	ackPath := filepath.Join(dir, "ACK")
-	events, out, err := runTraced("c02wl", dbWlArgs{Dir: root, Ack: ackPath, Opts: c.Opts, Steps: c.Steps}, root, ackPath, filepath.Join(dir, "trace.txt"), 120*time.Second)
+	events, out, err := runTraced("c02wl", dbWlArgs{Dir: root, Ack: ackPath, Opts: c.Opts, Steps: c.Steps}, root, ackPath, filepath.Join(dir, "trace.txt"), 120*time.Second,
+		func() { os.RemoveAll(root); must(os.MkdirAll(root, 0755)) })
 	if err != nil {
+		if straceTrouble(err.Error()) {
+			c.Skipped = "the tracer failed: " + err.Error() // says nothing about the library: the case is not counted
+			return
+		}
 		c.Fatal = "trace: " + err.Error() + " " + out
 		return
 	}
@@ -267,8 +273,12 @@ func (c *c02Case) Exec() {
 		os.RemoveAll(cp)
 		must(copyTree(si.path, cp))
 		os.Setenv("VERIF_NO_CLOSE", "1")
-		evs, _, err := runTraced("c02open", dbOpenArgs{Dir: cp, Opts: c.Opts, Keys: c.Keys}, cp, filepath.Join(dir, "NOACK"), filepath.Join(dir, "trace2.txt"), 60*time.Second)
+		evs, _, err := runTraced("c02open", dbOpenArgs{Dir: cp, Opts: c.Opts, Keys: c.Keys}, cp, filepath.Join(dir, "NOACK"), filepath.Join(dir, "trace2.txt"), 60*time.Second,
+			func() { os.RemoveAll(cp); must(copyTree(si.path, cp)) })
 		os.Unsetenv("VERIF_NO_CLOSE")
+		if err != nil && straceTrouble(err.Error()) {
+			return // the tracer failed: no nested images for this one
+		}
 		if err != nil {
 			ob.Nested = append(ob.Nested, nestObs{Boundary: -1, Child: "traced recovery failed: " + err.Error()})
 			return
@@ -497,6 +507,9 @@ func trunc(b []byte) []byte {
 }
 
 func (c *c02Case) Oracle() (bool, string) {
+	if c.Skipped != "" {
+		return true, ""
+	}
 	if c.Fatal != "" {
 		return false, c.Fatal
 	}
@@ -585,9 +598,12 @@ func (c *c02Case) Nontrivial() bool {
 			st++
 		}
 	}
-	return st >= 1 && len(c.Images) > 10
+	return st >= 1 && len(c.Images) > 10 && c.Skipped == ""
 }
 func (c *c02Case) Kind() string {
+	if c.Skipped != "" {
+		return "skipped(tracer failed)"
+	}
 	k := "sync"
 	if c.Opts.AsyncWAL {
 		k = "async"
